@@ -29,7 +29,7 @@
  *     a .pack file is a list of [len: u32 LE][bytes] inputs (written by gen/c10_mutate.py); --from/--to select an
  *     index range of the pack.  For every input it prints
  *        B <idx> <name> <size>                         before the session starts (flushed)
- *        E <idx> rc=<hex of last dec_frame rc> calls=<n> pics=<n> obus=<types seen> dirty=<n> asan=<0/1>
+ *        E <idx> rc=<hex of last dec_frame rc> calls=<n> pics=<n> obus=<types seen> dirty=<n> asan=<0/1/2> ph=<hash of pictures>
  *     `dirty` counts sanitizer output produced while the input ran (via __sanitizer_on_print); with
  *     --stop-on-asan the process exits with status 77 after the first input with an ASan report other than an
  *     invalid READ (asan=1; asan=2 means reads only), because the heap may be corrupt afterwards (the driver
@@ -75,6 +75,29 @@ static void df_quiet_stdout_once(void) {
     }
 }
 
+/* FNV-1a over the visible samples of every picture handed out (printed as ph= by the standalone runner: lets a
+ * source change be checked for "valid streams still decode to the same pictures") */
+static uint64_t g_pic_hash;
+static void     df_hash_pic(const EbSvtIOFormat *io) {
+    if (!io || !io->luma)
+        return;
+    int      bps = io->bit_depth > 8 ? 2 : 1;
+    uint64_t h   = g_pic_hash ? g_pic_hash : 1469598103934665603ull;
+    for (uint32_t y = 0; y < io->height; y++) {
+        const uint8_t *p = io->luma + (size_t)y * io->y_stride * bps;
+        for (uint32_t x = 0; x < io->width * (uint32_t)bps; x++) h = (h ^ p[x]) * 1099511628211ull;
+    }
+    if (io->color_fmt == EB_YUV420 && io->cb && io->cr) {
+        uint32_t cw = (io->width + 1) / 2, ch = (io->height + 1) / 2;
+        for (uint32_t y = 0; y < ch; y++) {
+            const uint8_t *p = io->cb + (size_t)y * io->cb_stride * bps;
+            const uint8_t *q = io->cr + (size_t)y * io->cr_stride * bps;
+            for (uint32_t x = 0; x < cw * (uint32_t)bps; x++) h = (((h ^ p[x]) * 1099511628211ull) ^ q[x]) * 1099511628211ull;
+        }
+    }
+    g_pic_hash = h;
+}
+
 static void df_free_out(EbBufferHeaderType *ob) {
     EbSvtIOFormat *io = (EbSvtIOFormat *)ob->p_buffer;
     if (io) {
@@ -114,8 +137,10 @@ static void df_one_call(EbComponentType *h, const uint8_t *p, size_t n, int anne
             EbErrorType r2 = svt_av1_dec_get_picture(h, ob, &si, &fi);
             if (r2 == EB_DecNoOutputPicture)
                 break;
-            if (r2 == EB_ErrorNone)
+            if (r2 == EB_ErrorNone) {
                 g_pics++;
+                df_hash_pic((const EbSvtIOFormat *)ob->p_buffer);
+            }
         }
     }
     free(blk);
@@ -125,6 +150,7 @@ static int df_session(const uint8_t *data, size_t size) {
     df_quiet_stdout_once();
     g_last_rc = 0;
     g_calls = g_pics = 0;
+    g_pic_hash       = 0;
     g_obu_mask       = 0;
     unsigned ctl     = size ? data[0] : 0;
     if (size) {
@@ -275,8 +301,8 @@ static int df_run_named(const char *name, const uint8_t *d, size_t n) {
     free(cp);
     /* asan: 0 none, 2 only invalid READs (state not corrupted), 1 anything else (write, free, ...) */
     unsigned asan = g_asan_reports == 0 ? 0 : (g_asan_reads >= g_asan_reports ? 2 : 1);
-    printf("E %ld rc=%x calls=%u pics=%u obus=%x dirty=%u asan=%u\n", g_idx, g_last_rc, g_calls, g_pics, g_obu_mask,
-           g_dirty - d0, asan);
+    printf("E %ld rc=%x calls=%u pics=%u obus=%x dirty=%u asan=%u ph=%llx\n", g_idx, g_last_rc, g_calls, g_pics, g_obu_mask,
+           g_dirty - d0, asan, (unsigned long long)g_pic_hash);
     fflush(stdout);
     g_idx++;
     return asan == 1 && g_stop_on_asan;
